@@ -117,13 +117,14 @@ Lemma ls_mono :
 Proof.
   apply syntax_mutind; auto.
   - intros b _ e _ st H. cbn [visit_s]. unfold if_finish, combine. cbn. rewrite H. reflexivity.
-  - intros fv b _ e _ st H. cbn [visit_s]. unfold loop_finish.
+  - intros k b _ e _ st H. cbn [visit_s]. generalize (is_always k) as fv. generalize (is_forever k) as fo. intros fo fv.
+    unfold loop_finish.
     assert (X : ls (cur (loop_st4 fv (loop_st2 fv st (loop_after_body st (visit_b b (loop_body_entry st))))
                  (loop_after_body st (visit_b b (loop_body_entry st)))
                  (visit_b e (loop_else_entry fv e (loop_st2 fv st (loop_after_body st (visit_b b (loop_body_entry st))))
                     (loop_after_body st (visit_b b (loop_body_entry st))))))) = true).
     { unfold loop_st4, combine. cbn [cur ls restore]. destruct fv; unfold loop_st2; cbn; rewrite H; reflexivity. }
-    destruct (fv && _); cbn; auto.
+    destruct (fo && _); cbn; auto.
   - intros sup b IHb st H. cbn [visit_s]. destruct sup; [|auto].
     unfold suppress_leave, combine. cbn. rewrite H. reflexivity.
   - intros b _ hs _ e _ f IHf st H. cbn [visit_s]. destruct (is_nil f).
@@ -711,8 +712,8 @@ Lemma uq_loop : forall fv b e, Q_b b -> Q_s (SLoop fv b e).
 Proof.
   intros fv b e IHb prot Hu st Hl. cbn [upper_ok_s] in Hu.
   apply andb_true_iff in Hu. destruct Hu as [Hu Hub]. apply andb_true_iff in Hu. destruct Hu as [Hfv He].
-  destruct fv; [discriminate|]. destruct e; [|discriminate].
-  cbn [visit_s].
+  destruct fv; try discriminate. destruct e; [|discriminate].
+  cbn [visit_s is_always is_forever].
   set (m0 := loop_body_entry st).
   set (m1 := visit_b b m0).
   set (o2 := loop_after_body st m1).
